@@ -250,6 +250,23 @@ fn c05_scenarios(thorough: bool) -> Vec<Scenario> {
             ));
         }
     }
+    // Two sources into a two-input block.
+    for (len, other) in [(2usize, 2usize), (3, 1)] {
+        for order in some_orders(4) {
+            v.push(Scenario::MtResult(
+                GraphSpec {
+                    shape: Shape::Merge(other),
+                    per_page: 1,
+                    pages: 1,
+                    src_len: len,
+                    order,
+                    file_repeat: 0,
+                    vec_repeat: 0,
+                },
+                1,
+            ));
+        }
+    }
     // Delay, now that it is repaired.
     for len in [1usize, 3] {
         for order in some_orders(3) {
@@ -350,6 +367,18 @@ fn c07_scenarios(thorough: bool) -> Vec<Scenario> {
                 cancel_early,
             }));
         }
+    }
+    // A source that has nothing yet and says Pending: the runners poll it.
+    for runner in ["mt", "st"] {
+        v.push(Scenario::Run(RunParams {
+            kind: "cancel".into(),
+            runner: runner.into(),
+            infinite: true,
+            src_len: 8888, // marker: PendingSource
+            fail_block: 0,
+            fail_call: 0,
+            cancel_early: false,
+        }));
     }
     // A failure must be reported also when cancellation races with it.
     for runner in ["mt", "st"] {
